@@ -63,6 +63,8 @@ def observe_case(spec):
             if p is None:
                 continue
             o = O.parse_outcome(p, text, tree=False, seconds=spec.get('budget', 20))
+            if o['out'] == 'hang' and spec.get('budget', 20) < 8:
+                o = O.parse_outcome(p, text, tree=False, seconds=8)      # a short budget is only a first filter (first-call costs)
             rec = {'cfg': name, 'cls': o['cls'], 'ui': bool(o['ui']), 'pos': -1, 'tt': '', 'exp': [], 'acc': [], 'hasacc': False}
             if o['out'] == 'reject' and o['ui']:
                 rec['pos'] = o.get('pos', -1) if o.get('pos') is not None else -1
